@@ -19,7 +19,7 @@ RULE = ("grid world in {LineWorld, GridWorld, DiscreteWorld incl. zero-extent ax
         "or ndarray table of the world's dimensionality; every value encodes (component serial, x, y, z); non-trivial = "
         "non-cubic world with >=2 populated axes, >=2 live components of different source kinds at once and >=1 removal "
         "followed by a full read-back; distinct = (shape, sequence of (op, source kind, live count))"
-        "; also: generator objects reused across components (table edited in place / rebound, constant changed), re-adding a live name, sequence-valued constants, a ConstantGenerator subclass, tables mixing text and numbers, a second discrete world in the same process using the same component names; rare switch for known finding F12")
+        "; also: generator objects reused across components (table edited in place / rebound, constant changed), re-adding a live name, sequence-valued constants, a ConstantGenerator subclass, tables mixing text and numbers, callables mixing exact ints with fractional floats / numeric-looking text, a second discrete world in the same process using the same component names; rare switch for known finding F12")
 COMPONENTS = {"real": ["ECAgent.Environments.DiscreteWorld.add_cell_component / remove_cell_component / cells / get_cell",
                        "ConstantGenerator", "LookupGenerator", "LineWorld / GridWorld constructors", "pandas.DataFrame"],
               "stub": ["callable generators and source buffers are harness-built"]}
@@ -27,7 +27,8 @@ PROBES = ["src_callable", "src_list", "src_ndarray_int", "src_ndarray_float", "s
           "src_lookup_nd", "alias_after_ndarray", "alias_after_list", "zero_extent_below_populated", "readd_removed_name",
           "remove_unknown_rejected", "lookup_1d", "lookup_2d", "lookup_3d", "get_cell_compared", "generator_object_reused", "readd_live_name_overwrites", "src_lookup_reuse",
           "src_lookup_rebind", "src_const_reuse", "src_const_tuple", "src_const_subclass", "lookup_mixed_text_and_numbers",
-          "second_world_same_names", "second_world_removed_a_name_live_here", "second_world_rejects_a_name_live_here"]
+          "second_world_same_names", "second_world_removed_a_name_live_here", "second_world_rejects_a_name_live_here",
+          "callable_mixing_int_with_float_or_numeric_text"]
 TECHNIQUE = "deterministic simulation: seeded add/remove histories of cell components with injected rejected removals and caller-side buffer mutation vs a per-cell reference table"
 LEVEL_TEXT = ("Seeded search over grid shapes, source kinds and add/remove histories; after every operation the column set, the "
               "position column and every cell of every live component must equal the reference (so no add / remove disturbs "
@@ -174,8 +175,20 @@ def execute(sc, ctx):
             buf = None
             if src == "callable":
                 s_ = serial
-                gen = (lambda pos, cells_, s_=s_: enc(s_, pos))
-                vals = [enc(serial, p) for p in cells]
+                if op.get("mixed") and n >= 2:
+                    # a function whose values are not all of one kind: an exact int for the first cell, fractional floats
+                    # (odd serials) or numeric-looking text (even serials) for others - each cell holds what IT was given
+                    def mixed_value(pos, s_=s_):
+                        v = enc(s_, pos)
+                        if sum(pos) % 2 == 0:
+                            return v
+                        return v + 0.5 if s_ % 2 else str(v)
+                    gen = (lambda pos, cells_: mixed_value(pos))
+                    vals = [mixed_value(p) for p in cells]
+                    ctx.probe("callable_mixing_int_with_float_or_numeric_text")
+                else:
+                    gen = (lambda pos, cells_, s_=s_: enc(s_, pos))
+                    vals = [enc(serial, p) for p in cells]
             elif src == "list":
                 buf = [enc(serial, (i, 0, 0)) for i in range(n)]
                 if op.get("mixed_none") and n >= 2:
